@@ -11,7 +11,7 @@
 //!            lp=lenient: the LP-token code id handed to the vault (or configured in a second vault factory)
 //!            is a cw20 that accepts ANY symbol — the code id is a deployment parameter; with the stock
 //!            cw20-base a vault over a token-factory asset cannot exist (symbol `uLP-factory/` refused)
-//! vault_upd  via=<direct|factory> i=N fees=<p,f,b|->
+//! vault_upd  via=<direct|factory> i=N fees=<p,f,b|-> [tog=<f><d><w>, each -|0|1: switches written by the same message]
 //! dist_inst  grace=G dur=D          dist_upd grace=<G|-> dur=<D|->
 //! lair_inst  growth=R n=N cw20=<0|1> [via=<chain|entry>]   lair_upd growth=<R|->
 //!            via=entry: the lair's entry points are called directly on mock dependencies (no chain
@@ -896,10 +896,16 @@ impl Config {
                 let i: usize = kv(ws, "i")?.parse().ok()?;
                 let fees = triple(kv(ws, "fees")?)?;
                 let addr = w.vaults.get(i)?.0.clone();
+                // `tog=<f><d><w>` (optional; each `-` unset, `0` off, `1` on): the switches the SAME message writes next to
+                // the fees (seed C18-Q: the burn-fee rule applied only while flash loans are enabled)
+                let tog: Vec<Option<bool>> = match kv(ws, "tog") {
+                    Some(t) if t.len() == 3 => t.chars().map(|c| match c { '0' => Some(false), '1' => Some(true), _ => None }).collect(),
+                    _ => vec![None, None, None],
+                };
                 let params = vault::UpdateConfigParams {
-                    flash_loan_enabled: None,
-                    deposit_enabled: None,
-                    withdraw_enabled: None,
+                    flash_loan_enabled: tog[0],
+                    deposit_enabled: tog[1],
+                    withdraw_enabled: tog[2],
                     new_owner: None,
                     new_vault_fees: fees.map(vfee),
                     new_fee_collector_addr: None,
@@ -1325,7 +1331,15 @@ impl Engine for Config {
                 8 | 9 if !w.vaults.is_empty() => {
                     let i = rng.below(w.vaults.len() as u64) as usize;
                     let v = if rng.chance(5, 6) == w.vaults[i].1 { "factory" } else { "direct" };
-                    format!("vault_upd via={} i={} fees={}", v, i, opt_fees(rng))
+                    // one update in two also writes the switches (any combination), so that fee updates meet vaults
+                    // with flash loans / deposits / withdrawals off and switches flipped in the same message
+                    let tog = if rng.chance(1, 2) {
+                        let c = |rng: &mut Rng| ["-", "0", "1", "0"][rng.below(4) as usize];
+                        format!(" tog={}{}{}", c(rng), c(rng), c(rng))
+                    } else {
+                        String::new()
+                    };
+                    format!("vault_upd via={} i={} fees={}{}", v, i, opt_fees(rng), tog)
                 }
                 10 => {
                     let g = *rng.pick(&[0u64, 1, 2, 5, 29, 30, 31, u64::MAX, 10]);
